@@ -84,11 +84,13 @@ ALL_OPS = [  # (op, noreply variants)
     ("get_many", (None,)), ("gets_many", (None,)), ("delete", (None, False)), ("delete_many", (None, False)),
     ("incr", (None, True)), ("decr", (None, True)), ("touch", (None, False)), ("flush_all", (None, False)),
     ("version", (None,)), ("stats", (None,)), ("raw_command", (None,)), ("cache_memlimit", (None,)),
-    ("quit", (None,)),
+    ("quit", (None,)), ("flush_all_delay", (None, False)),
 ]
 
 
 def has_op(kind, op):
+    if op == "getitem_miss":
+        return kind in ("client", "pooled")
     if kind in ("hash", "hashpooled"):
         return op not in ("version", "raw_command", "cache_memlimit", "shutdown")
     if kind == "pooled":
@@ -148,17 +150,28 @@ class Stack:
         self.calls += 1
         c = self.calls
         plan = dict(plan or {})
-        rfault = any(k[0] == "reply" for k in plan)
+        # a call the harness makes fail on purpose (an illegal key) counts as a failed call: what the stack does with the
+        # connection it held is judged like after any other failure
+        rfault = any(k[0] == "reply" for k in plan) or op == "get_illegal"
         kind = "quit" if op in ("quit", "shutdown") else "close" if op == "close" else "data"
         ro = op in READ_OPS
         self.events.append({"e": "call", "c": c, "op": op, "kind": kind, "rfault": rfault, "ro": ro})
         self.net.begin_call(c, plan, seg)
-        if op == "close":
+        if op in ("close", "get_illegal", "getitem_miss"):
             args, kw = (), {}
+        elif op == "flush_all_delay":
+            args, kw = op_call("flush_all", nr, self.cfg.kind)
         else:
             args, kw = op_call(op, nr, self.cfg.kind)
         try:
-            val = getattr(self.client, op)(*args, **kw)
+            if op == "get_illegal":
+                val = self.client.get("illegal key")             # rejected before any exchange
+            elif op == "getitem_miss":
+                val = self.client["absent-key"]                  # KeyError for a plain miss
+            elif op == "flush_all_delay":
+                val = self.client.flush_all(delay=30, **kw)
+            else:
+                val = getattr(self.client, op)(*args, **kw)
         except BaseException as exc:   # noqa: B902 -- the harness must see interrupts too
             x = "exc" if isinstance(exc, Exception) else "base"
             self.events.append({"e": "raise", "c": c, "x": x, "xn": type(exc).__name__,
